@@ -4,7 +4,10 @@
 //!   harness seqdiff <cases-file> <results-file> [--jobs N]
 //!   harness seqcase                      (child mode: case on stdin, result on stdout)
 //!   harness puresweep <ops-file> <results-file>
+//!   harness fcsched <cases-file> <results-file> [--jobs N]   (docs/FORMAT-fc.md)
+//!   harness fccase                       (child mode of fcsched)
 
+mod fcsched;
 mod puresweep;
 mod seqcase;
 mod seqdiff;
@@ -16,9 +19,11 @@ fn main() {
         Some("seqdiff") => seqdiff::main_seqdiff(&args[1..]),
         Some("seqcase") if args.len() == 1 => seqcase::main_seqcase(),
         Some("puresweep") => puresweep::main_puresweep(&args[1..]),
+        Some("fcsched") => fcsched::main_fcsched(&args[1..]),
+        Some("fccase") if args.len() == 1 => fcsched::main_fccase(),
         _ => {
             eprintln!(
-                "usage:\n  harness seqdiff <cases-file> <results-file> [--jobs N]\n  harness seqcase < case > result\n  harness puresweep <ops-file> <results-file>"
+                "usage:\n  harness seqdiff <cases-file> <results-file> [--jobs N]\n  harness seqcase < case > result\n  harness puresweep <ops-file> <results-file>\n  harness fcsched <cases-file> <results-file> [--jobs N]\n  harness fccase < case > result"
             );
             2
         }
